@@ -124,7 +124,9 @@ class NetCDFMixin(IOMixin):
 
         dataset = netcdf.ExportDataset(self._output_folder, self.timeseries_export_basename)
 
-        times = [(dt - self.__timeseries_times[0]).seconds for dt in self.__timeseries_times]
+        times = [
+            (dt - self.__timeseries_times[0]).total_seconds() for dt in self.__timeseries_times
+        ]
         dataset.write_times(times, self.initial_time, self.io.reference_datetime)
 
         output_variables = [sym.name() for sym in self.output_variables]
